@@ -291,6 +291,32 @@ def message_level(buf):
     return None
 
 
+SUPPORTED_VERSIONS = {(1, 0), (1, 1), (1, 2), (1, 3), (1, 4), (2, 0)}
+
+
+def version_rule(buf):
+    """Independent of PyKMIP: the (major, minor) the Request Header announces, when it is not one of the six protocol
+    versions the server supports - such a request must be refused as a whole.  None when supported or when the header
+    has no readable Protocol Version (the message-level rule speaks then)."""
+    if len(buf) < 40 or buf[:4] != b'\x42\x00\x78\x01' or buf[8:12] != b'\x42\x00\x77\x01' or buf[16:20] != b'\x42\x00\x69\x01':
+        return None
+    if buf[24:32] != b'\x42\x00\x6a\x02\x00\x00\x00\x04' or len(buf) < 56 or buf[40:48] != b'\x42\x00\x6b\x02\x00\x00\x00\x04':
+        return None
+    v = (struct.unpack('>i', buf[32:36])[0], struct.unpack('>i', buf[48:52])[0])
+    return None if v in SUPPORTED_VERSIONS else v
+
+
+def version_space():
+    minors = list(range(10)) + [10, 11, 20, 30, 40, 100, 255, 2 ** 31 - 1, -1, -2 ** 31]
+    return [(ma, mi) for ma in (0, 1, 2, 3, -1, 2 ** 31 - 1) for mi in minors if (ma, mi) not in SUPPORTED_VERSIONS]
+
+
+def with_version(b, v):
+    """The same request announcing protocol version v (header layout as written by PyKMIP: version first)."""
+    assert b[24:28] == b'\x42\x00\x6a\x02' and b[40:44] == b'\x42\x00\x6b\x02'
+    return b[:32] + struct.pack('>i', v[0]) + b[36:48] + struct.pack('>i', v[1]) + b[52:]
+
+
 def message_corruptions(b):
     """Cut a request exactly behind each of its batch items (frame length recomputed), raise / lower its Batch Count,
     re-tag a later batch item - the message-level counterpart of the length inflations."""
@@ -540,6 +566,16 @@ def oracle_connection(ctx, spec, obs, calls, meta, expect_frames=None):
         ov = primitive_overrun(f['frame'])
         if ov is not None and ov[4] != 'overrun' and not (m.get('kind') or '').split(':')[0] in STRICT_KINDS:
             ov = None
+        uv = version_rule(f['frame'])
+        if uv is not None:
+            ok = (len(env['items']) == 1 and env['items'][0]['status'] == 1
+                  and env['items'][0]['reason'] == sessdrv.REASON_INVALID_MESSAGE)
+            executed = f['engine'] is not None and f['engine']['kind'] != 'kmiperr'       # entered AND not refused at the header
+            if not ok or executed or changed:
+                hit({'kind': 'unsupported-version-accepted', 'version': '%d.%d' % uv},
+                    'the request announces protocol version %d.%d, which the server does not support, yet it was %s'
+                    % (uv[0], uv[1], 'executed' if executed else 'not answered with INVALID_MESSAGE'),
+                    dict(fx, answer=env, store_changed=changed, engine_entered=f['engine'] is not None))
         ml = message_level(f['frame'])
         if ml is not None:
             ok = (len(env['items']) == 1 and env['items'][0]['status'] == 1
@@ -616,13 +652,15 @@ def run(ctx):
         'byte flips, duplicated/dropped items, deep nesting, raw random; every INNER length field of Register/Create/DeriveKey '
         'requests raised by +8/+16/to 0x7ffffff8 with outer lengths kept right; single value bytes of text strings replaced by '
         'bytes that are not UTF-8, Booleans set to 2, padding set non-zero, structure intact; multi-item requests cut behind each '
-        'batch item, Batch Count raised/lowered, later items re-tagged) in sequences bad*-then-good, each also replayed one '
+        'batch item, Batch Count raised/lowered, later items re-tagged; state-changing requests announcing every version of '
+        '{0,1,2,3,-1,2^31-1} x {0..9,10,11,20,30,40,100,255,2^31-1,-1,-2^31} outside the six supported) in sequences bad*-then-good, each also replayed one '
         'frame per connection on a twin engine; (c) every composition of every stream of <= 12 bytes (quick: 8..12 bytes, 1-2 '
         'streams per length) and random chunkings (1..9000-byte chunks) of long streams incl. frames > 4096 bytes; '
         '(d) maximum response size in {absent, 0, 1, size-1, size, size+1, 2^31-1, -1} for five operations, plus sequences '
         'mixing small / absent / garbage on one connection (the limit must not outlive its request); (e) requests '
         'the engine refuses as a whole (stale/future time stamp, asynchronous, undo, version 9.9) and injected engine '
-        'behaviours (crash, KmipError with ASCII/non-ASCII/unencodable text, reported maximum, unencodable response). '
+        'behaviours (crash, KmipError with ASCII/non-ASCII/unencodable text, reported maximum, unencodable response); (f) a second '
+        'connection (other thread, same engine) after a connection that sent refused and undecodable requests must be answered. '
         'Distinct = distinct (frame bytes, chunking); every case involves a real parse or a real framing decision.')
     ctx.regen(only=['enums'])
     ctx.prove('props/C12.v')
@@ -679,6 +717,18 @@ def run(ctx):
                 and x[1] in (((1, 0), (1, 2), (2, 0)) if quick else kdrv.VERSIONS)]
         msgbad = [(kind + ':' + lab, fr) for lab, v, m, b in msgy for kind, fr in message_corruptions(b)]
         ctx.count('mutation.message-level', len(msgbad))
+        # the version space: state-changing requests, otherwise valid, announcing a version the server does not support
+        vbase = [x for x in valid if (x[0], x[1]) in (('create', (1, 1)), ('create', (1, 2)), ('register_opaque_data', (1, 3)),
+                                                      ('batch_create_activate', (1, 4)), ('create', (2, 0)), ('destroy', (1, 0)))]
+        vspace = version_space()
+        vbad = [('version%d.%d:%s' % (v[0], v[1], lab), with_version(b, v)) for v in vspace
+                for lab, bv, m, b in (vbase if not quick else [vbase[(v[1] + v[0]) % len(vbase)], vbase[(v[1] // 10) % len(vbase)]])]
+        if quick:          # the collisions of a decimal reading (1.10 = 1.1, 1.20 = 1.2, ...) on the request encoded for that version
+            for lab, bv, m, b in valid:
+                if lab in ('create', 'batch_create_activate') and bv[0] == 1:
+                    vbad += [('version1.%d:%s' % (mi, lab), with_version(b, (1, mi))) for mi in (bv[1] * 10, bv[1] * 100) if mi not in (0,)]
+        ctx.count('mutation.unsupported-version', len(vbad))
+        corrupted = corrupted + vbad
         corrupted = corrupted + msgbad
         inflated = inflated + corrupted
         small = [('maxsmall:%s' % lab, with_max_size(info, lab, v, m), m)
@@ -822,6 +872,42 @@ def run(ctx):
                          [dict(m, kind='fault:' + f[0]) for f, m in faults] + [{'kind': 'good:get'}], kind='engine-faults')
             px.faults = []
         pool.release(px)
+        # ---------------------------------------------------------------- (f) a second connection is served too
+        # "serves the next valid request normally" across connections of one engine: connection A (own thread) sends
+        # requests that are decodable but refused as a whole (the engine raises inside process_request) or malformed,
+        # then connection B (another thread) must still be answered.  Direct oracle only; a dedicated engine, because a
+        # starved engine cannot be used any further.
+        import threading
+        px = pool.fresh()
+        a_frames = [x[1] for x in refused] + [reframe(b'\x42\x00\x78\x01\x00\x00\x00\x00' + b'\xff' * 16), g0]
+        for k, a_stream in enumerate([b''.join(a_frames), refused[0][1], refused[4][1] + g0]):
+            res = {}
+
+            hold = {'drained': threading.Event(), 'release': threading.Event()}
+
+            def serve(name, stream, hold=None):
+                spec = sessdrv.default_spec(stream)
+                spec['hold'] = hold
+                res[name] = sessdrv.run_spec(px, spec, dumps=False)[0]
+            ta = threading.Thread(target=serve, args=('A', a_stream, hold), daemon=True)
+            ta.start()
+            hold['drained'].wait(60)                             # A has been answered and keeps its connection open
+            tb = threading.Thread(target=serve, args=('B', g0 + q()), daemon=True)
+            tb.start()
+            tb.join(20)
+            answered = 'B' in res and [len(f['sent']) for f in res['B']['frames']] == [1, 1]
+            hold['release'].set()
+            ta.join(20)
+            ctx.count('conn.second-connection')
+            ctx.case_seen(('second-connection', k), nontrivial=True)
+            if 'A' not in res or not answered:
+                ctx.violation({'kind': 'other-connection-not-served'},
+                              {'connection_A_hex': a_stream.hex()[:4000], 'connection_B_hex': (g0 + q()).hex(),
+                               'A_finished': 'A' in res, 'B_finished': 'B' in res},
+                              'after connection A sent refused/undecodable requests, a second connection of the same engine got no answer within 20 s')
+                break                                            # the engine is stuck; leave it alone
+        else:
+            pool.release(px)
     finally:
         pool.close()
 
